@@ -104,7 +104,7 @@ class DefaultDeviceHandler:
                 apply in addition to those derived by default and
                 device specific handlers.
         """
-        self.capabilities = kwargs.pop("capabilities", [])
+        self.capabilities = list(kwargs.get("capabilities", []))
 
     def get_capabilities(self):
         """
